@@ -366,6 +366,55 @@ func c7Wrappers(c *Ctx) {
 					}
 				}
 			})
+			if !stOK {
+				// ... or appended, in order, to a slice that starts empty and fresh and is what With returns
+				for _, cl := range Calls(mw) {
+					ap, isCall := cl.(*ssa.Call)
+					if !isCall || CallBuiltin(ap) != "append" {
+						continue
+					}
+					acc, isPhi := Strip(ap.Call.Args[0]).(*ssa.Phi)
+					if !isPhi {
+						continue
+					}
+					seedFresh, feeds := false, false
+					for _, e := range acc.Edges {
+						switch x := Strip(e).(type) {
+						case *ssa.MakeSlice:
+							if k, isC := ConstInt(x.Len); isC && k == 0 {
+								seedFresh = true
+							}
+						case *ssa.Call:
+							feeds = feeds || x == ap
+						}
+					}
+					carries := false
+					if sl, isSl := ap.Call.Args[1].(*ssa.Slice); isSl {
+						if va, isA := sl.X.(*ssa.Alloc); isA && va.Referrers() != nil {
+							for _, r := range *va.Referrers() {
+								if ia, isIA := r.(*ssa.IndexAddr); isIA && ia.Referrers() != nil {
+									for _, r2 := range *ia.Referrers() {
+										if st, isSt := r2.(*ssa.Store); isSt && Strip(st.Val) == ssa.Value(inner) {
+											carries = true
+										}
+									}
+								}
+							}
+						}
+					}
+					returned := false
+					for _, r := range Returns(mw) {
+						rv := Strip(RetVals(r)[0])
+						if mi, isMI := rv.(*ssa.MakeInterface); isMI {
+							rv = Strip(mi.X)
+						}
+						returned = returned || rv == ssa.Value(acc)
+					}
+					if seedFresh && feeds && carries && returned {
+						stOK = true
+					}
+				}
+			}
 			ok = ok && stOK
 		}
 		c.Check(ok, "R7.4", mw.String(), "every-branch-derived", mw.Pos(), "every branch i of the tee is replaced by branch[i].With(fields) in a fresh slice %s", detail)
